@@ -56,7 +56,7 @@ ASSUMPTIONS = ['the write path performs its I/O through builtins.open and os.ren
                'the parent process runs with PYTHONHASHSEED=0; children with the drawn seeds']
 BUDGET = {'quick': 128, 'thorough': 6000}
 MIN_PER_SHARD = 4
-TIME = {'quick': 30, 'thorough': 800}
+TIME = {'quick': 15, 'thorough': 800}
 
 FEATURES = cdefgen.DEFAULT_FEATURES | frozenset(['anon', 'anon_td', 'file', 'gvar_any', 'variadic'])
 MODNAMES = ['m', '_cffi_x1', 'pkg.mod', 'a.b.c', 'Mod_9']
